@@ -305,6 +305,32 @@ def _cst_eval(a):
     return ev, mod
 
 
+def binding_values(a, rep, tag):
+    # ... whatever the last node is - None (an optional that did not match), a falsy value - it is what gets bound, exactly once
+    from ..modelinterp import Bound as _B, ModelInterp as _MI, Recorder as _Rec, Stub as _St
+    from ..minieval import Unsupported as _Uns
+    PSQ = 'tatsu.contexts.state.ParseState'
+    for m, target in (('nameset', '_set'), ('nameadd', '_setlist')):
+        fnm = a.ct.lookup(PSQ, m)
+        if fnm is None:
+            continue
+        for val in (None, 'v', '', 0, [], ()):
+            astrec = _Rec('ast')
+            me_ = _St(PSQ, ast=astrec, last_node=val, cst=None)
+            try:
+                _MI(a).call_bound(_B(me_, fnm), ['n'], {})
+            except _Uns as e:
+                raise AnalysisError(f'{tag}: cannot interpret ParseState.{m}: {e}') from e
+            calls_ = [t for t in astrec.trace if t[0] in ('_set', '_setlist', '__setitem__')]
+            okb = len(calls_) == 1 and calls_[0][0] == target and len(calls_[0][1]) == 2 and calls_[0][1][0] == 'n' and (
+                calls_[0][1][1] is val or (calls_[0][1][1] == val and type(calls_[0][1][1]) is type(val)))
+            rep.add({'fn': f'ParseState.{m}', 'last_node': repr(val), 'binds': [(c[0], [repr(x) for x in c[1]]) for c in calls_], 'ok': okb})
+            if not okb:
+                rep.fail(fnm.qualname, f'{m}-value:{val!r}', f'ParseState.{m}("n") with last_node {val!r} performs {[(c[0], c[1]) for c in calls_]}; required: one AST.{target}("n", {val!r}) '
+                         f'- the model binds the value of the named expression also when it is None or falsy (x+=[e] adds None when e is absent), and generated '
+                         f'parsers bind through this method', fnm.loc)
+
+
 def r2_cst(a, tier):
     rep = RuleReport(
         'C01.R2',
@@ -426,6 +452,7 @@ def r2_cst(a, tier):
         if not ok:
             rep.fail(f'tatsu.contexts.state.ParseState.{m}', f'{m}-binding', f'ParseState.{m} does not store self.last_node '
                      f'through AST.{target}', fn.loc if fn else '')
+    binding_values(a, rep, 'C01.R2')
     # ---- structural companions ---------------------------------------------------------
     import contextlib
 
